@@ -68,6 +68,9 @@ def check(c: Check):
     clause_g(c)
     clause_h(c)
     clause_i(c)
+    from .common import check_no_use_of_absent_value
+    check_no_use_of_absent_value(c, 'C18-j', ['exactly_lib'], 1200,
+                                 'AttributeError on None ends as INTERNAL_ERROR')
 
 
 # ---------------------------------------------------------------- a
